@@ -340,7 +340,7 @@ def classify(viol, wl, k):
 
 def prepare_template(ctx, wl):
     """Directory with the workload's setup applied (by a child process, so the parent holds no connection)."""
-    d = ctx.scratch('c07t')
+    d = concdrv.scratch(ctx, 'c07t')
     k = concdrv.kill_child(d, wl['setup'], kill_n=None, kind=wl['kind'], settings=wl['settings'], timeout=60, now=SETUP_NOW)
     if k['fatal'] or not k['done']:
         raise RuntimeError('setup of %s failed: %r' % (wl['name'], k['fatal']))
@@ -350,7 +350,7 @@ def prepare_template(ctx, wl):
 def run_workload(ctx, res, stats, wl, points=None):
     kind = wl['kind']
     tmpl = prepare_template(ctx, wl)
-    d0 = ctx.scratch('c07')
+    d0 = concdrv.scratch(ctx, 'c07')
     shutil.rmtree(d0)
     shutil.copytree(tmpl, d0)
     full = concdrv.kill_child(d0, wl['program'], kill_n=None, kind=kind, settings=wl['settings'])
@@ -366,7 +366,7 @@ def run_workload(ctx, res, stats, wl, points=None):
     clock = instr.Clock(c05.NOW)
     todo = list(range(n)) if points is None else [p for p in points if p < n]
     for kn in todo:
-        d = ctx.scratch('c07')
+        d = concdrv.scratch(ctx, 'c07')
         shutil.rmtree(d)
         shutil.copytree(tmpl, d)
         k = concdrv.kill_child(d, wl['program'], kill_n=kn, kind=kind, settings=wl['settings'])
@@ -411,7 +411,7 @@ def soak(ctx, res, stats, rounds=40):
     the child wrote for it, at most one step behind/ahead of what the child reported."""
     rng = ctx.rng
     for rnd in range(rounds):
-        d = ctx.scratch('c07s')
+        d = concdrv.scratch(ctx, 'c07s')
         rfd, wfd = os.pipe()
         sys.stdout.flush()
         pid = os.fork()
@@ -518,7 +518,7 @@ def run(ctx, big=False):
                                                 'cache:delete:file', 'deque:popleft:file', 'cache:add-new:file')]
         rest = [w for w in wls if w not in must and 'pages' not in w['name']]
         rng.shuffle(rest)
-        sel = must + rest[:22]
+        sel = must + rest[:50]
     else:
         sel = wls
     stats['workloads_available'] = len(wls)
